@@ -115,6 +115,18 @@ claim("C01", "model_checking",
       "trace validation of two real back ends against an executable TLA+ reference semantics "
       "(Stepper.tla over Expr.tla) with TLC; programs are TLC-generated behaviours of ProgGen.tla")
 
+claim("C11", "fault_enumeration",
+      "for every generated program every (tagged call site, occurrence) reached in the fault-free run is "
+      "made to raise on the real interpreter and the real generated class; TLC validates the run up to the "
+      "exception against Stepper.tla extended with a dependence (taint) analysis of the written program "
+      "(same exception object, no temporaries, next phase, each persistent variable at its pre-step value "
+      "or at a value assigned independently of the failed call) and validates the continuation on the same "
+      "object and on a fresh stepper started in the observed state against the reference",
+      "trusted: fault injection wrapper and observation of temporaries (context keys / new instance "
+      "attributes); the allowed post-fault set is the property's (loose) one",
+      "fault enumeration over call sites with trace validation against the TLA+ reference (Stepper.tla) "
+      "by TLC; programs are TLC-generated behaviours of ProgGen.tla")
+
 NOT_YET = "check not built yet (work in progress, see DESIGN.md section 11)"
 NOT_APPLICABLE = {}
 
